@@ -376,8 +376,8 @@ ParseText(t) ==
   ELSE IF hd.k = "uns" THEN [k |-> "unspecified"]
   ELSE IF anyRej THEN [k |-> "reject", why |-> "syntax"]
   ELSE IF anyUns THEN [k |-> "unspecified"]
+  ELSE IF Len(defs) > 40 THEN [k |-> "reject", why |-> "toomany"]                   \* counts DEFINITIONS (also repeated names)
   ELSE IF Cardinality(SeqToSet(defs)) # Len(defs) THEN [k |-> "unspecified"]        \* duplicate definitions
-  ELSE IF Len(defs) > 40 THEN [k |-> "reject", why |-> "toomany"]
   ELSE IF \E n \in 1..Len(refs) : refs[n] \notin SeqToSet(defs) THEN [k |-> "reject", why |-> "undefined"]
   ELSE [k |-> "accept", hc |-> hd.c, ast |-> [n \in 1..Len(ls) |-> ls[n].node]]
 Verdict(t) == ParseText(t).k
